@@ -28,6 +28,8 @@ def check(run, ctx):
             run.finding(L1, rec["func"], "splitlines-indexed-by-line", f"{rec['func']}: {rec['expr']} is indexed by a line number ({rec['use']}): inserting a form-feed-only line above a suppressed violation shifts the lookup and changes the findings", rec["loc"])
         elif rec["producer"]:
             run.finding(L2, rec["func"], "splitlines-line-producer", f"{rec['func']}: line numbers come from enumerate({rec['expr']}, 1): a form-feed-only line moves later violations by two lines in this linter and by one in all others", rec["loc"])
+        elif rec.get("positional") == "producer":
+            run.ok(L2, rec["func"], f"{rec['expr']}: line numbers produced in the parsers' newline model")
         else:
             run.ok(L1, rec["func"], f"{rec['expr']}: {rec['use']}", nontrivial=rec["use"] != "no positional use")
     L3 = run.rule("L3", "FileLintContext.file_lines splits the content on '\\n'", floor=1)
